@@ -18,6 +18,7 @@ Code it is anchored in: {', '.join(p['anchors']['files'])}
 
 Rules:
 * Do NOT look at or use anything under /verif (it does not concern you). Do NOT modify /repo itself. Work ONLY in your own scratch git worktree: `git -C /repo worktree add --detach /tmp/mut{rnd}-{p['id']} HEAD` and edit/build/test there (`cd /tmp/mut{rnd}-{p['id']} && cargo test --offline`). When you are done, remove its build output (`rm -rf /tmp/mut{rnd}-{p['id']}/target`) but leave the worktree for inspection.
+* Other agents work in sibling worktrees of the same repository at the same time: do NOT use `git stash` (the stash is shared between worktrees), do not touch other worktrees, and do not run `git worktree prune`. To compare with the unchanged code use `git diff` / `git apply -R` / `git checkout -- <file>` inside your own worktree only.
 * Prefer changes that need something SPECIFIC to manifest — a particular multi-step sequence of operations, an unusual input or boundary value, a particular batching/interleaving, or two cooperating sites that each look fine alone — NOT ones that ordinary use or the existing tests would expose at once. They should look like plausible refactorings, optimisations or "fixes" a maintainer might commit (no comments announcing the bug).
 * Avoid the single most obvious idea (one changed constant in the most central function). Look in second-order places: helper functions, rarely taken branches, initialisation/reset paths, value ranges near wrap-around, interactions between two modules.
 * Each mutation must violate the property as stated (observable behaviour), not merely change internals.
